@@ -267,4 +267,6 @@ def run(chk):
     chk.ob("C20.R5:send-sync", "the unsafe Send/Sync impls of the shared runtime are conditional on its components", bounds)
 
     common.arg_agreement_rule(chk, P, "C20", [("emit_core", "src/runtime.rs"), ("emit", "src/setup.rs")], 3)
+    from . import witness
+    witness.witness_rule(chk, "C20", 3)
     return chk
